@@ -226,6 +226,8 @@ def jobs_for(pid, tier, seed):
         J.append(ufam('from_config: 2 tasks, timeout_get variants', ['C05'], 5 if q else 7, tasks=2, ctor='from_config', config_timeout='pos',
                       get_variants=['get', ('timeout_get', 'zero'), ('timeout_get', 'pos'), ('timeout_get', None)], add_variants=['try_add', 'add']))
         J.append(ufam('new(): 3 tasks, waiting adders and getters', ['C05'], 5 if q else 7, tasks=3, get_variants=['get', 'remove'], add_variants=['add'], take=True))
+        J.append(ufam('new(): 2 tasks, an Object is returned while its holder unwinds from a panic', ['C05'], 5 if q else 7, tasks=2, get_variants=['try_get', 'get'], add_variants=['try_add'], unwinding_drop=True,
+                      take=False, cancel=False, ctl=('status',)))
         J.append(ufam('thread level: get/return/take/add interleaved at the schedule points', ['C05'], 12 if q else 16, tasks=2, thread_mode=True, ctor='from_vec', initial=1,
                       get_variants=['try_get', 'get'], add_variants=['try_add'], max_adds=1, cancel=False))
     elif pid == 'C12':
